@@ -87,8 +87,12 @@ def compare(flow, run, pred):
 
     def bad(p, m):
         hits.setdefault(p, []).append(m)
-    m = re.match(r"ERR=(.*) ; RES=(.*) ; CALLS=(.*) ; BLOCKED=(.*)$", pred)
+    m = re.match(r"ERR=(.*) ; RES=(.*) ; CALLS=(.*) ; BLOCKED=(.*) ; OP=(.*) ; UNIQ=(.*) ; JOBS=(.*)$", pred)
     perr, pres, pcalls, pblocked = m.group(1), m.group(2), m.group(3), m.group(4)
+    if m.group(5) != "agree":
+        bad("MODEL", "the operational model (FlowOpModel, canonical schedule) and the flow semantics (FlowSemModel) disagree: %s" % m.group(5))
+    if m.group(6) != "true":
+        bad("MODEL", "unique_providers_b is false on a flow the generator built as well-formed")
     pcalls = [c for c in pcalls.split(";") if c]
     pblocked = set(b for b in pblocked.split(",") if b)
     called = [c.split("(")[0] for c in run["calls"]]
@@ -178,6 +182,32 @@ def finish_common(flow, run, hits, bad, scen):
     return hits
 
 
+JOB_RE = re.compile(r"(task\d+|pred\d+)\.job = sched\.Enqueue\(ctx, cff\.Job\{\s*Run:\s*(?:task\d+|pred\d+)\.run,\s*(?:Dependencies: \[\]\*cff\.ScheduledJob\{([^}]*)\},\s*)?\}\)")
+
+
+def parse_job_graph(text, flow):
+    """The Dependencies lists of one generated function, renamed to the model's job names
+    (tasks by ascending serial = listing order; predicates likewise)."""
+    jobs = [(m.group(1), [d.strip()[:-4] for d in (m.group(2) or "").split(",") if d.strip()]) for m in JOB_RE.finditer(text)]
+    tnames = sorted({j for j, _ in jobs if j.startswith("task")}, key=lambda x: int(x[4:]))
+    pnames = sorted({j for j, _ in jobs if j.startswith("pred")}, key=lambda x: int(x[4:]))
+    ren = {}
+    for i, nm in enumerate(tnames):
+        ren[nm] = "t%d" % i
+    withpred = [t["id"] for t in flow.tasks if t["pred"] is not None]
+    for i, nm in enumerate(pnames):
+        ren[nm] = "q%d" % (withpred[i] if i < len(withpred) else 999)
+    return {ren[j]: sorted(ren.get(d, d) for d in deps) for j, deps in jobs}
+
+
+def split_functions(text):
+    out = {}
+    parts = re.split(r"^func (Flow\d+)\(", text, flags=re.M)
+    for i in range(1, len(parts), 2):
+        out[parts[i]] = parts[i + 1]
+    return out
+
+
 def observe(seed, tier):
     key = "gen-%s-%s-%d-%s" % (common.repo_tree_hash(), _hash_sources(), seed, tier)
     cpath = os.path.join(common.CACHE, key + ".json")
@@ -221,6 +251,11 @@ def observe(seed, tier):
             summary["build_ok"] = False
             hit("C13", "the generated package does not type-check without the cff tag: %s" % (o + e).strip().split("\n")[-1][:200],
                 {"output": (o + e)[-4000:], "module": mod})
+    gotext = {}
+    if summary["cff_ok"]:
+        for fn in sorted(os.listdir(gdir)):
+            if fn.endswith("_gen.go"):
+                gotext.update(split_functions(open(os.path.join(gdir, fn)).read()))
     if summary["cff_ok"] and summary["build_ok"]:
         exe = os.path.join(mod, "runner.bin")
         common.run(["go", "build", "-o", exe, "./cmd/runner"], cwd=mod, env=common.GOENV, timeout=900)
@@ -254,8 +289,22 @@ def observe(seed, tier):
             lines.append(f.model_line() + " # " + " ".join(
                 "%s=%s" % (k, "panic" if v.startswith("panic") else v) for k, v in sorted(run["scenario"].items()) if v != "cancel"))
         preds = common.model_run("flowobs", lines) if lines else []
+        graphs_checked = set()
         for run, pred in zip(runs, preds):
             f = byname[run["flow"]]
+            if f.name() not in graphs_checked:
+                graphs_checked.add(f.name())
+                want = {}
+                for ent in pred.rsplit("JOBS=", 1)[1].split(";"):
+                    if ent:
+                        j, ds = ent.split(":")
+                        want[j] = sorted(d for d in ds.split(",") if d)
+                got = parse_job_graph(gotext.get(f.name(), ""), f)
+                summary["graphs"] = summary.get("graphs", 0) + 1
+                if got != want:
+                    for p in ("C02", "C01"):
+                        hit(p, "the Dependencies lists in the generated code differ from the job graph of the model: generated %s, model %s" % (got, want),
+                            {"flow": f.model_line(), "go_function": f.name(), "generated": got, "model": want, "module": mod})
             summary["executions"] += 1
             summary["dist"]["scenario"][run["label"]] = summary["dist"]["scenario"].get(run["label"], 0) + 1
             for p, msgs in compare(f, run, pred).items():
@@ -285,13 +334,16 @@ def apply(chk, pid):
     chk.cov["traces_validated_against_impl"] = chk.cov.get("traces_validated_against_impl", 0) + s["executions"]
     chk.cov.setdefault("correspondence", {})["generated_flows"] = {
         "kind": "programs generated from abstract flows are compiled by the real cff, built and executed under scenario tables; every execution is compared with FlowSemModel's prediction (extracted)",
-        "flows": s["flows"], "executions": s["executions"], "input_distribution": s["dist"]}
+        "flows": s["flows"], "executions": s["executions"], "job_graphs_compared_with_generated_code": s.get("graphs", 0),
+        "input_distribution": s["dist"]}
     for smp in s["samples"][:2]:
         chk.sample(smp)
     for i in range(s["executions"]):
         chk.distinct.add(("genexec", i))
     for h in s["hits"].get(pid, [])[:1]:
         chk.violate(h["what"], h["payload"])
+    for h in s["hits"].get("MODEL", [])[:1]:
+        chk.fail_no_input("the two Coq models of a Flow disagree with each other: " + h["what"], {"theorem": "FlowOpModel vs FlowSemModel (extracted)", "detail": h["payload"]})
     if pid != "C13" and not (s["cff_ok"] and s["build_ok"]):
         chk.fail_no_input("correspondence generated-code/FlowSemModel could not run: the generated package was not produced or does not build",
                           {"correspondence": "generated_flows", "hits": s["hits"].get("C13", [])[:1]})
